@@ -150,9 +150,16 @@ func cmdCheck(args []string) int {
 	// ---- verdicts ----
 	known := loadKnown(filepath.Join(*verif, "known_findings.json"))
 	ledger := loadLedger(filepath.Join(*verif, "baseline", "ledger.json"))
+	// dead covers recorded at rebaseline: site covers by name; return covers as a per-function
+	// budget (return statements are renumbered by harmless edits)
 	deadOK := map[string]bool{}
+	deadRet := map[string]int{}
 	for _, n := range ledger["dead:"+*prop] {
-		deadOK[n] = true
+		if retCoverRe.MatchString(n) {
+			deadRet[normName(n)]++
+		} else {
+			deadOK[n] = true
+		}
 	}
 	var violations, knownHits, broken []string
 	nDis, nFail, nUndec := 0, 0, 0
@@ -186,6 +193,11 @@ func cmdCheck(args []string) int {
 		case "solver-disagreement":
 			broken = append(broken, o.Name+": solvers disagree")
 		case "cover-failed":
+			if retCoverRe.MatchString(o.Name) && deadRet[normName(o.Name)] > 0 {
+				deadRet[normName(o.Name)]--
+				nCover++
+				continue
+			}
 			if deadOK[o.Name] {
 				// a return that is unreachable under the stated invariants on the pinned tree (recorded at rebaseline)
 				nCover++
@@ -364,4 +376,10 @@ func reportViolation(verif, prop string, o *Obligation, known []KnownFinding, kn
 var normRe = regexp.MustCompile(`(#\d+|@ret\d+|\.case\d+|\.rest|~\d+)`)
 
 // normName strips site ordinals so that the ledger survives edits that add or remove sites.
-func normName(n string) string { return normRe.ReplaceAllString(n, "") }
+// Return covers are numbered per return statement; merging or splitting returns is harmless as long
+// as some return of the function stays reachable, so they are recorded as one entry per function.
+func normName(n string) string {
+	return retCoverRe.ReplaceAllString(normRe.ReplaceAllString(n, ""), "cover.ret")
+}
+
+var retCoverRe = regexp.MustCompile(`cover\.ret\d+`)
